@@ -2,7 +2,7 @@
 # usage: seed_eval.sh <seed-name> <worktree> <property-id> [more property ids to run]
 # 1. confirms in the scratch worktree: suite passes with the change, demo fails with / passes without
 # 2. stores patch.diff + demo.py under /verif/seeded/<seed-name>/
-# 3. applies the patch to /repo, runs the given checks, and reverts /repo
+# 3. applies the patch to a scratch copy of /repo/kingdon and runs the given checks against it (KVC_REPO)
 set -u
 NAME=$1; WT=$2; shift 2; PROPS="$@"
 OUT=/verif/seeded/$NAME; mkdir -p $OUT
@@ -16,9 +16,10 @@ echo "== suite with change"; PYTHONPATH=$WT timeout 1800 /venv/bin/python -m pyt
 git stash -q
 echo "== demo without change"; PYTHONPATH=$WT timeout 900 /venv/bin/python $OUT/demo.py > $OUT/demo_without.log 2>&1; DO=$?; echo "exit $DO"
 git stash pop -q
-echo "== checks on /repo with the patch applied"
-cd /repo && git apply $OUT/patch.diff || { echo "PATCH DOES NOT APPLY TO /repo"; exit 3; }
+echo "== checks on a scratch copy of /repo with the patch applied (KVC_REPO; evidence redirected with KVC_OUT; /repo untouched)"
+SCR=/var/tmp/kvcscratch/eval_$NAME; rm -rf $SCR; mkdir -p $SCR/repo $SCR/out; cp -r /repo/kingdon $SCR/repo/kingdon
+(cd $SCR/repo && patch -s -p1 < $OUT/patch.diff) || { echo "PATCH DOES NOT APPLY TO /repo"; rm -rf $SCR; exit 3; }
 cd /verif
-for p in $PROPS; do ./check $p --tier quick > $OUT/check_$p.log 2>&1; echo "$p exit=$? $(grep -c VIOLATION $OUT/check_$p.log) violation line(s): $(grep -E 'VIOLATION' $OUT/check_$p.log | head -2 | cut -c1-160) | $(tail -1 $OUT/check_$p.log | cut -c1-200)"; done
-git -C /repo checkout -- . ; git -C /repo status --short | head -3
+for p in $PROPS; do KVC_REPO=$SCR/repo KVC_OUT=$SCR/out ./check $p --tier quick > $OUT/check_$p.log 2>&1; echo "$p exit=$? $(grep -c VIOLATION $OUT/check_$p.log) violation line(s): $(grep -E 'VIOLATION' $OUT/check_$p.log | head -2 | cut -c1-160) | $(tail -1 $OUT/check_$p.log | cut -c1-200)"; done
+rm -rf $SCR
 echo "demo_with=$DW demo_without=$DO"
